@@ -211,7 +211,7 @@ func c04(tier string) []*explore.Scenario {
 	for _, kind := range []string{"Unary", "Bidi", "SStream", "CStream"} {
 		out = append(out, c04EndToEnd(kind, false), c04EndToEnd(kind, true))
 	}
-	for _, way := range []string{"first-message", "sendheader", "with-trailer"} {
+	for _, way := range []string{"first-message", "sendheader", "with-trailer", "concurrent-sendheader"} {
 		out = append(out, c04HeaderRace(way, 2))
 	}
 	out = append(out, handlerSeqs("C04", tier)...)
@@ -459,8 +459,18 @@ func c04HeaderRace(way string, bound int) *explore.Scenario {
 			hdr := metadata.MD{"k": {"v1", "v2"}, "x-bin": {"\x00\xff"}}
 			trl := metadata.MD{"t": {"end"}}
 			r := w.Rec("s", "Bidi")
+			sendHeaderOK := true
 			w.Handlers["s"] = func(r *env.Rec, ss grpc.ServerStream) error {
 				switch way {
+				case "concurrent-sendheader":
+					// SendHeader from one goroutine while another sends the first message
+					done := make(chan struct{})
+					vsched.GoNamed("handler-sendheader", func() {
+						sendHeaderOK = ss.SendHeader(hdr) == nil
+						close(done)
+					})
+					ss.SendMsg(env.S("x"))
+					<-done
 				case "sendheader":
 					ss.SendHeader(hdr)
 					ss.SendMsg(env.S("x"))
@@ -490,6 +500,8 @@ func c04HeaderRace(way string, bound int) *explore.Scenario {
 			}
 			if herr != nil {
 				vsched.Fail(fam+"|response-header", "Header() failed: %v", herr)
+			} else if !sendHeaderOK {
+				// the message won the race: SendHeader was refused, its metadata is legitimately not sent
 			} else if msg := wantOf(hdr).check(got, nil); msg != "" {
 				vsched.Fail(fam+"|response-header", "Header() called concurrently with the first response (%s): %s", way, msg)
 			}
